@@ -471,10 +471,17 @@ pixman_transform_init_scale (struct pixman_transform *t,
     t->matrix[2][2] = F (1);
 }
 
-static pixman_fixed_t
-fixed_inverse (pixman_fixed_t x)
+static pixman_bool_t
+fixed_inverse (pixman_fixed_t x, pixman_fixed_t *inverse)
 {
-    return (pixman_fixed_t) ((((pixman_fixed_48_16_t) F (1)) * F (1)) / x);
+    pixman_fixed_48_16_t r = (((pixman_fixed_48_16_t) F (1)) * F (1)) / x;
+
+    /* 1/x is not representable for |x| <= 2 units */
+    if (r > pixman_max_fixed_48_16 || r < pixman_min_fixed_48_16)
+	return FALSE;
+
+    *inverse = (pixman_fixed_t) r;
+    return TRUE;
 }
 
 PIXMAN_EXPORT pixman_bool_t
@@ -484,9 +491,16 @@ pixman_transform_scale (struct pixman_transform *forward,
                         pixman_fixed_t           sy)
 {
     struct pixman_transform t;
+    pixman_fixed_t isx = 0, isy = 0;
 
     if (sx == 0 || sy == 0)
 	return FALSE;
+
+    if (reverse &&
+	(!fixed_inverse (sx, &isx) || !fixed_inverse (sy, &isy)))
+    {
+	return FALSE;
+    }
 
     if (forward)
     {
@@ -497,8 +511,7 @@ pixman_transform_scale (struct pixman_transform *forward,
     
     if (reverse)
     {
-	pixman_transform_init_scale (&t, fixed_inverse (sx),
-	                             fixed_inverse (sy));
+	pixman_transform_init_scale (&t, isx, isy);
 	if (!pixman_transform_multiply (reverse, reverse, &t))
 	    return FALSE;
     }
@@ -566,6 +579,14 @@ pixman_transform_translate (struct pixman_transform *forward,
                             pixman_fixed_t           ty)
 {
     struct pixman_transform t;
+
+    /* the reverse translation of the most negative value is not representable */
+    if (reverse &&
+	(tx == (pixman_fixed_t) pixman_min_fixed_48_16 ||
+	 ty == (pixman_fixed_t) pixman_min_fixed_48_16))
+    {
+	return FALSE;
+    }
 
     if (forward)
     {
